@@ -57,8 +57,11 @@ type Knobs struct {
 	ShapeFaults bool
 	// NoBalanceOrigins forbids balance()/overdraft() origins (C09's domain)
 	NoBalanceOrigins bool
-	// NegativeSend allows a negative fixed amount (fault)
+	// OverdraftFlag: the overdraft() function may be used (the case carries the feature flag)
 	OverdraftFlag bool
+	// PBalanceOrigin: chance (per case, up to 3 times) of a variable initialised by
+	// balance() / overdraft(); such variables are then used as sent amounts and caps
+	PBalanceOrigin int
 }
 
 func DefaultKnobs() Knobs {
@@ -85,6 +88,13 @@ type TG struct {
 	nvar  int
 	// UsesOverdraftFn is set when an overdraft() origin was generated
 	UsesOverdraftFn bool
+	BalVars         []BalVar
+}
+
+// BalVar is a monetary variable whose value comes from balance() / overdraft().
+type BalVar struct {
+	Name, Asset string
+	Val         *big.Int
 }
 
 func NewTG(t *rapid.T, k Knobs) *TG {
@@ -412,6 +422,11 @@ func (g *TG) Src(asset string, depth int, all bool) *Src {
 		}
 		return s
 	case "capped":
+		for _, bv := range g.BalVars {
+			if bv.Asset == asset && g.pct("src.cap.balvar", 30) {
+				return &Src{Kind: SCapped, Cap: Var(bv.Name), From: g.Src(asset, depth+1, false)}
+			}
+		}
 		c := g.CapValue("src.cap")
 		return &Src{Kind: SCapped, Cap: g.MonExpr(asset, c, 0), From: g.Src(asset, depth+1, false)}
 	case "allot":
@@ -502,12 +517,20 @@ func (g *TG) Stmt() *Stmt {
 		return &Stmt{Kind: StSend, All: true, Sent: g.AssetExpr(asset), Src: g.Src(asset, 0, true), Dst: g.Dst(asset, 0)}
 	default:
 		n := g.Amount("send.amt")
+		var sentExpr *Expr
+		if len(g.BalVars) > 0 && g.pct("send.balvar", 35) {
+			bv := g.BalVars[g.n("send.balvar.i", 0, len(g.BalVars)-1)]
+			asset, n, sentExpr = bv.Asset, bv.Val, Var(bv.Name)
+		}
 		g.note(n)
 		src := g.Src(asset, 0, false)
 		if g.pct("send.fallback", g.K.PWorldFallback) {
 			src = &Src{Kind: SInorder, Subs: []*Src{src, {Kind: SAcct, Addr: Acct("world")}}}
 		}
-		return &Stmt{Kind: StSend, Sent: g.MonExpr(asset, n, 0), Src: src, Dst: g.Dst(asset, 0)}
+		if sentExpr == nil {
+			sentExpr = g.MonExpr(asset, n, 0)
+		}
+		return &Stmt{Kind: StSend, Sent: sentExpr, Src: src, Dst: g.Dst(asset, 0)}
 	}
 }
 
@@ -539,7 +562,7 @@ func (g *TG) CallStmt() *Stmt {
 		g.AcctExpr(g.destAccount()), g.StrExpr(pickS(g, "call.key", metaKeys)), g.anyValueExpr()}}}
 }
 
-// balanceOrigins adds variables initialised by balance() / overdraft() and returns them.
+// balanceOrigin adds a variable initialised by balance() or overdraft().
 func (g *TG) balanceOrigin() {
 	acct := pickS(g, "bo.acct", g.K.Accounts)
 	asset := g.asset()
@@ -548,13 +571,32 @@ func (g *TG) balanceOrigin() {
 		fn = "overdraft"
 		g.UsesOverdraftFn = true
 	}
+	cur := new(big.Int)
+	if v, ok := g.Bal[acct][asset]; ok {
+		cur.Set(v)
+	}
+	val := new(big.Int).Set(cur)
+	if fn == "overdraft" {
+		val.Neg(val)
+		if val.Sign() < 0 {
+			val.SetInt64(0)
+		}
+	}
 	name := g.newVarName()
-	g.Decls = append(g.Decls, VarDecl{Type: "monetary", Name: name, Origin: &Call{Fn: fn, Args: []*Expr{g.AcctExpr(acct), g.AssetExpr(asset)}}})
+	// the arguments are evaluated before the variable exists: declare them first
+	args := []*Expr{g.AcctExpr(acct), g.AssetExpr(asset)}
+	g.Decls = append(g.Decls, VarDecl{Type: "monetary", Name: name, Origin: &Call{Fn: fn, Args: args}})
+	g.BalVars = append(g.BalVars, BalVar{Name: name, Asset: asset, Val: val})
 }
 
 // Case draws a complete execution case.
 func (g *TG) Case() *ExecCase {
 	g.Sheet()
+	for i := 0; i < 3; i++ {
+		if g.pct("balorigin", g.K.PBalanceOrigin) {
+			g.balanceOrigin()
+		}
+	}
 	n := g.n("nstmts", g.K.MinStmts, g.K.MaxStmts)
 	s := &Script{}
 	for i := 0; i < n; i++ {
